@@ -208,6 +208,7 @@ def main(run):
 
     # ------------------------------------------------------------------ end to end through the Phonopy API
     _end_to_end(run, rng, thorough)
+    _anisotropic(run, rng, thorough, lines, meta, allrel)
 
     # ------------------------------------------------------------------ compare with the models
     if not translated:
@@ -235,6 +236,24 @@ def main(run):
             if s != sorted(v) or s[int(t[0])] != v[0]:
                 run.broke("correspondence", "sort_omegas model: %s -> %s" % (v, line))
             ncmp += 1
+            continue
+        if kind == "diag":
+            ncmp += 1
+            run.count("main diagonal of TotalDos/ProjectedDos vs model", section="correspondence")
+            t = line.split()
+            if line == "bad-op" or len(t) != 5:
+                run.broke("correspondence", "main-diagonal model rejected the request", info)
+                continue
+            dm = int(t[0])
+            lens = [float(Fraction(x)) for x in t[1:]]
+            for who, di in impl.items():
+                if di is None:
+                    run.broke("correspondence", "%s: relative grid addresses are none of the four tables" % who, info)
+                    continue
+                unique = sorted(lens)[1] > min(lens) * (1 + 1e-6)
+                if lens[di] > min(lens) * (1 + 1e-9) or (unique and di != dm):
+                    run.broke("correspondence", "%s uses main diagonal %d, the shortest diagonal of reciprocal lattice / mesh is %d (squared lengths %s)"
+                              % (who, di, dm, ["%.6g" % x for x in lens]), info)
             continue
         model = _parse(line)
         if model is None:
@@ -354,6 +373,67 @@ def _field_oracle(run, rng, field, mesh, rel, d, style):
         _viol(run, site, "cumulative-not-monotone-at-vertex-frequency" if om[k + 1] in u else "cumulative-not-monotone",
                       "band-summed cumulative weight drops from %.6g (omega=%.4g) to %.6g (omega=%.4g)" % (totJ[k], om[k], totJ[k + 1], om[k + 1]), info)
     run.count("oracle-whole-field", section="oracle")
+
+
+def _anisotropic(run, rng, thorough, lines, meta, allrel):
+    """Projected DOS sum = total DOS (tetrahedron method) on non-orthogonal lattices with anisotropic meshes, and which
+    main diagonal TotalDos and ProjectedDos hand to the kernel (observed at the glue through the shim's trace hook)."""
+    import itertools as it
+
+    plan = [("triclinic", m) for m in it.permutations((2, 3, 6))]
+    plan += [("bcc", (2, 3, 6)), ("bcc", (6, 3, 2)), ("bcc", (3, 5, 2)), ("bcc", (2, 2, 5)), ("hcp", (2, 2, 5)), ("mono_P", (3, 5, 2)),
+             ("mono_P", (2, 3, 6)), ("rhombo", (2, 2, 5))]
+    extra = [("triclinic", (3, 5, 2)), ("triclinic", (2, 2, 5)), ("triclinic", (5, 2, 2)), ("bcc", (5, 2, 3)), ("bcc", (2, 5, 2)),
+             ("hcp", (2, 3, 6)), ("mono_P", (6, 2, 3)), ("rhombo", (3, 5, 2)), ("rhombo", (2, 3, 6)), ("triclinic", (4, 4, 2))]
+    plan += extra if thorough else rng.sample(extra, 2)
+    cache = {}
+    shim = common._STATE["shim"]
+    for name, mesh in plan:
+        if name not in cache:
+            cell, cen = gen.make_cell(name)
+            ph = gen.make_phonopy(cell, np.diag([2, 2, 2]), pmat="auto" if cen != "P" else "P")
+            ph.force_constants = gen.pair_fc(ph.supercell, min(0.9 * gen.min_lattice_vector(ph.supercell.cell), 5.0))
+            cache[name] = ph
+        ph = cache[name]
+        mesh = list(mesh)
+        ph.run_mesh(mesh, with_eigenvectors=True, is_mesh_symmetry=False)
+        fr = ph.get_mesh_dict()["frequencies"]
+        fmin, fmax = float(fr.min()), float(fr.max())
+        pitch = (fmax - fmin + 1.0) / 150
+        seen = {}
+
+        phase = ["total"]
+
+        def trace(fname, args, seen=seen, phase=phase):
+            if fname == "tetrahedron_method_dos":
+                seen[phase[0]] = np.array(args[-1]).copy()
+
+        shim.trace = trace
+        try:
+            ph.run_total_dos(freq_min=fmin - 0.5, freq_max=fmax + 0.5, freq_pitch=pitch, use_tetrahedron_method=True)
+            tot = np.array(ph.get_total_dos_dict()["total_dos"])
+            phase[0] = "projected"
+            ph.run_projected_dos(freq_min=fmin - 0.5, freq_max=fmax + 0.5, freq_pitch=pitch, use_tetrahedron_method=True)
+            pdos = np.array(ph.get_projected_dos_dict()["projected_dos"])
+        finally:
+            shim.trace = None
+        info = dict(cell=name, primitive_lattice=np.array(ph.primitive.cell).tolist(), mesh=mesh, is_mesh_symmetry=False, force_constants="gen.pair_fc, 2x2x2")
+        err = float(np.abs(pdos.sum(axis=0) - tot).max())
+        if pdos.shape[0] * 3 != fr.shape[1] or err > 1e-9 * max(1.0, float(np.abs(tot).max())):
+            run.violation("Phonopy.run_projected_dos", "pdos-sum-ne-total-tetrahedron-anisotropic-mesh",
+                          "sum of projected DOS differs from total DOS by %.3g (max total DOS %.3g)" % (err, float(np.abs(tot).max())), info)
+        run.count("oracle-pdos-sum-anisotropic", section="oracle")
+        run.case(("aniso", name, tuple(mesh)), nontrivial=len(set(mesh)) > 1)
+        which = {}
+        for who in ("total", "projected"):
+            tab = seen.get(who)
+            which["TotalDos" if who == "total" else "ProjectedDos"] = None if tab is None else next((d for d in range(4) if (allrel[d] == tab).all()), None)
+        if "total" in seen and "projected" in seen and not (seen["total"] == seen["projected"]).all():
+            run.violation("ProjectedDos._run_tetrahedron_method_dos", "main-diagonal-differs-from-total-dos",
+                          "TotalDos and ProjectedDos hand different relative grid addresses (main diagonals %s) to the kernel" % which, info)
+        reclat = np.linalg.inv(np.array(ph.primitive.cell))
+        lines.append("diag %s %d %d %d" % (_rats(reclat), mesh[0], mesh[1], mesh[2]))
+        meta.append(("diag", info, which))
 
 
 def _end_to_end(run, rng, thorough):
